@@ -210,6 +210,38 @@ func checkC18(c *run.Ctx) {
 			ids = append(ids, ident{alg, priv, pub, pubSet, kid})
 		}
 	}
+	// symmetric keys, including the ones the library itself generates, never validate
+	for _, alg := range []jwa.SignatureAlgorithm{jwa.HS256, jwa.HS384, jwa.HS512} {
+		type gen struct {
+			how       string
+			priv, pub jwk.Set
+			err       error
+		}
+		var gens []gen
+		a, b, err := jwkutil.NewKeyPair("kid-sym-"+alg.String(), alg)
+		gens = append(gens, gen{"NewKeyPair", a, b, err})
+		a, b, err = jwkutil.NewSymmetricKeyPairFromString("kid-sym2-"+alg.String(), "a shared secret of some length, "+alg.String(), alg)
+		gens = append(gens, gen{"NewSymmetricKeyPairFromString", a, b, err})
+		for _, g := range gens {
+			if g.err != nil {
+				c.Count("symmetric_generation_refused", 1) // refusing to generate one is fine too
+				continue
+			}
+			for half, set := range map[string]jwk.Set{"signing": g.priv, "verification": g.pub} {
+				if set == nil {
+					continue
+				}
+				for it := 0; it < set.Len(); it++ {
+					k, _ := set.Key(it)
+					c.Eval(1)
+					if err := jwkutil.Validate(k); err == nil {
+						c.Violation("gen/sym-"+alg.String(), map[string]any{"what": fmt.Sprintf("the %s key of a symmetric %s pair made by %s passes key validation", half, alg, g.how)})
+					}
+					c.Count("generated_symmetric_keys_rejected", 1)
+				}
+			}
+		}
+	}
 	payload := []byte("payload to sign")
 	for i, s := range ids {
 		sig, err := jws.Sign(nil, jws.WithKey(s.alg, s.priv), jws.WithDetachedPayload(payload), jws.WithCompact())
